@@ -1087,6 +1087,31 @@ func c02Run(tier string, seed int64, outdir string, replay string) error {
 		}
 	}
 
+	// ---- corpus: witnesses of the fixed finding C02-revoked-renewal-other-subject (class
+	// revoked-renewal-other-subject): a cached revoked wildcard / multi-SAN certificate matched through
+	// another name than its first subject; the policy permits the handshake's name only, the first
+	// subject only, or both. forceRenew renews Names[0]: that is the name the policy must be asked about.
+	for _, names := range [][]string{{"*.example"}, {"first.example", N}} {
+		for _, class := range []string{"valid", "expired"} {
+			for _, kc := range []bool{false, true} {
+				rp := map[string]c02Policy{
+					"decision-sni-only":   {OD: "decision", Sched: [][]string{{N}}},
+					"decision-first-only": {OD: "decision", Sched: [][]string{{names[0]}}},
+					"decision-both":       {OD: "decision", Sched: [][]string{{N, names[0]}}},
+					"allow-sni-only":      {OD: "allow", Allow: []string{N}},
+					"allow-first-only":    {OD: "allow", Allow: []string{names[0]}},
+				}
+				for _, pn := range emit.SortedKeys(rp) {
+					p := rp[pn]
+					cs := c02Single(p, 0, []c02CertSpec{{Names: names, Class: class, Managed: true, Cached: true, Stored: true, Revoked: true, KeyComp: kc}}, N, true)
+					if err := run(cs, map[string]any{"class": "revoked-renewal-other-subject", "policy": pn, "cert": class, "subject": names[0], "keycomp": kc}); err != nil {
+						return err
+					}
+				}
+			}
+		}
+	}
+
 	// ---- corpus: the witnesses of the fixed finding (class cached-due-storage-missing) ----
 	// cached managed wildcard certificate, due, deleted from storage, policy now denies the name
 	for _, pn := range []string{"decision-no", "allow-out", "decision-yes", "none"} {
